@@ -3,6 +3,7 @@ package optdec
 import (
 	"encoding/json"
 	"math"
+	"strings"
 	"unsafe"
 
 	"github.com/bytedance/sonic/internal/envs"
@@ -569,7 +570,8 @@ func (val Node) AsRaw(ctx *Context) string {
 		if err != nil {
 			break
 		}
-		return raw
+		/* a number is delimited by what follows it: drop the blanks the skipper ran over */
+		return strings.TrimRight(raw, " \t\r\n")
 	}
 	panic("should always be valid json here")
 }
